@@ -202,7 +202,8 @@ def check_sample(sample, form, kind, opts=None):
             obj = b.validate(sample)
         except Exception as e:  # noqa: BLE001
             if type(e).__name__ in ("PydanticUserError", "ConfigError", "NameError", "PydanticUndefinedAnnotation"):
-                return None
+                # a model that cannot be completed accepts nothing - the sample included (C02 generates from schemas, not from samples)
+                return f"the model inferred from the sample cannot be completed, so it does not accept the sample ({type(e).__name__}: {str(e)[:160]})"
             return f"the sample is rejected by the model inferred from it ({type(e).__name__}: {str(e)[:200]})"
         if kind in (V1, V2):
             back = b.dump(obj)
@@ -254,6 +255,11 @@ def coincidence_samples():
         yield {"rows": [{k: {"Id": 1}}, {k: "text"}, {"other": 1}]}
         yield {"rows": [{k: {"Id": 1}}, {k: {"Id": 2}}, {}]}
         yield {k: {"Id": 1}, "list": [{k: {"Id": 2}}, {k: None}]}
+    # null next to an object / an array in places that are not optional members (the only Optional of the module)
+    yield {"events": [None, {"a": 1}]}
+    yield {"rows": [{"cells": [1, 2]}, {"cells": None}]}
+    yield {"grid": [[1, 2], None]}
+    yield {"pairs": [{"k": {"v": 1}}, {"k": None}]}
     for a, b in (("content-type", "content_type"), ("tag-id", "tag_id"), ("a b", "a_b")):
         for shared in ({"x-request-id": "1"}, {"plain": "1"}, {}):
             yield {"request": {"headers": {a: "v", **shared}}, "response": {"headers": {b: "w", **shared}}}
@@ -295,6 +301,10 @@ def falsify(ctx):
         header = rng.sample([k for k in SAFE_KEYS if "\t" not in k], n)
         row = [rng.choice(["1", "a", "", "x y", "0.5", "true", "é"]) for _ in header]
         run(dict(zip(header, row)), "csv", rng.choice([V2, V1]))
+    # header cells with blanks at either end (written the way "a, b, c" style files are) and quoted cells
+    for header in ([" full name", "id"], ["id", " e-mail", "x "], ["  a", "b  ", " c "], ["id", "name"]):
+        for kind in (V2, V1):
+            run(dict(zip(header, ["1", "x", "y"][: len(header)])), "csv", kind)
     ctx.sample({"sample": gen_object(ctx.rng("sample"))})
 
 
